@@ -11,6 +11,7 @@ import RSVerif.Proofs.GF16
 import RSVerif.Proofs.WalshSpec
 import RSVerif.Proofs.TableSpec
 import RSVerif.Proofs.LocatorSpec
+import RSVerif.Proofs.TableInitSpec
 
 namespace RS
 open ShardAlg
@@ -110,5 +111,19 @@ theorem tables_spec :
     (∀ i, skewLog i = 65535 ↔ skewElem i = 0) ∧
     (∀ i, skewElem i ≠ 0 → gexp (skewLog i) = skewElem i ∧ skewLog i < 65535) :=
   ⟨expArr_get, logArr_zero, logArr_gexp, gexp_lg, logWalshArr_def, skewLog_eq_65535_iff, skewLog_spec⟩
+
+/-- the table CONSTRUCTION algorithms of src/engine/tables.rs, transliterated (Model/TableInit.lean:
+    LFSR + Cantor-basis conversion, incremental subspace-polynomial evaluation for the skew table,
+    FWHT of the log table, nibble products), produce exactly the tables of the definitions -/
+theorem table_construction_correct :
+    (∀ k, k < 65536 → initExpLog.1.getD k 0 = (gexp k).toNat) ∧
+    initExpLog.2 = logArr ∧
+    (∀ i, i < 65535 → (initSkew initExpLog.1 initExpLog.2).getD i 0 = skewLog i) ∧
+    initLogWalsh initExpLog.2 = logWalshArr ∧
+    (∀ logm k i, logm ≤ 65535 → k < 4 → i < 16 →
+      initMul16Entry initExpLog.1 initExpLog.2 logm k i
+        = (lut16 (fun y => gmul (gexp logm) y) k i).toNat) :=
+  ⟨initExpLog_exp, initExpLog_log_eq, initSkew_initExpLog, initLogWalsh_initExpLog,
+   fun logm k i h1 h2 h3 => initMul16Entry_initExpLog logm k i h1 h2 h3⟩
 
 end RS
